@@ -393,3 +393,125 @@ func TestVfC20Held(t *testing.T) {
 	}
 	fmt.Printf("VFSUMMARY {\"held_tokens\":%d}\n", id)
 }
+
+// TestVfC20PerHost: an AuthProvider that hands out a DIFFERENT PasswordAuthenticator per host (own credentials, own
+// approved class). Two contact points; each node demands the class that only the OTHER host's authenticator
+// approves. "Credentials are sent only to a class on the approved list" is a statement about each connection's
+// authenticator: the dialogue of each node is written as a case of its own (the configuration of THAT host), grouped
+// per connection as Trace_Auth.tla reads them.
+func TestVfC20PerHost(t *testing.T) {
+	outPath := os.Getenv("VF_C20_PERHOST")
+	if outPath == "" {
+		t.Skip("VF_C20_PERHOST not set")
+	}
+	f, err := os.Create(outPath)
+	if err != nil {
+		t.Fatal(err)
+	}
+	defer f.Close()
+	log := &vfC20EventLog{f: f}
+	type hostCfg struct {
+		user, pass, allowed, demands string
+	}
+	nsess, nresp := 0, 0
+	id := 0
+	for rep := 0; rep < 8; rep++ {
+		proto := 3 + rep%2
+		ka, kb := fmt.Sprintf("com.example.vf.AuthA%d", rep), fmt.Sprintf("com.example.vf.AuthB%d", rep)
+		hc := map[int]hostCfg{
+			1: {"alice", fmt.Sprintf("secret-of-A-%d", rep), ka, kb},
+			2: {"bob", fmt.Sprintf("secret-of-B-%d", rep), kb, ka},
+		}
+		if rep >= 6 {
+			// control: every node demands the class its own host's authenticator approves - credentials do flow
+			hc[1] = hostCfg{"alice", hc[1].pass, ka, ka}
+			hc[2] = hostCfg{"bob", hc[2].pass, kb, kb}
+		}
+		cl := &vfCluster{Partitioner: "org.apache.cassandra.dht.Murmur3Partitioner", Version: "3.11.4"}
+		cl.Set([]vfHostDesc{vfDesc(1), vfDesc(2)})
+		var mu sync.Mutex
+		events := map[int]map[int][]map[string]interface{}{1: {}, 2: {}} // node -> connection -> events
+		order := map[int][]int{}
+		put := func(node, c int, m map[string]interface{}) {
+			mu.Lock()
+			if _, ok := events[node][c]; !ok {
+				order[node] = append(order[node], c)
+			}
+			events[node][c] = append(events[node][c], m)
+			mu.Unlock()
+		}
+		nodes := map[int]*vfNode{}
+		for i := 1; i <= 2; i++ {
+			i := i
+			n := vfNewNode(cl, vfDesc(i))
+			pass := []byte(hc[1].pass)
+			pass2 := []byte(hc[2].pass)
+			n.OnFrame = func(nc *vfNodeConn, f *vfFrame, q *vfRequest) {
+				tok := []int{}
+				if f.Op == vfOpAuthResponse {
+					tok = vfC20Ints(q.AuthToken)
+				}
+				leak := bytes.Contains(f.Body, pass) || bytes.Contains(f.Body, pass2)
+				put(i, nc.ID, map[string]interface{}{"ev": "cli", "c": nc.ID, "op": int(f.Op), "token": tok, "leak": leak})
+			}
+			n.Handler = func(nc *vfNodeConn, f *vfFrame, q *vfRequest) bool {
+				switch f.Op {
+				case vfOpStartup:
+					put(i, nc.ID, map[string]interface{}{"ev": "srv", "c": nc.ID, "what": "authenticate", "class": hc[i].demands})
+					nc.Reply(f, vfOpAuthenticate, (&vfW{}).String(hc[i].demands).b)
+					return true
+				case vfOpAuthResponse:
+					put(i, nc.ID, map[string]interface{}{"ev": "srv", "c": nc.ID, "what": "success", "class": hc[i].demands})
+					nc.Reply(f, vfOpAuthSuccess, (&vfW{}).Bytes(nil).b)
+					return true
+				}
+				return false
+			}
+			nodes[i] = n
+		}
+		d := vfNewDialer(nodes[1], nodes[2])
+		cfg := vfClusterConfig(d, proto, nodes[1].Desc.Addr, nodes[2].Desc.Addr)
+		cfg.ConnectTimeout = 3 * time.Second
+		cfg.Timeout = 3 * time.Second
+		cfg.ReconnectionPolicy = &ConstantReconnectionPolicy{MaxRetries: 2, Interval: time.Millisecond}
+		cfg.AuthProvider = func(h *HostInfo) (Authenticator, error) {
+			k := 1
+			if h.ConnectAddress().String() == nodes[2].Desc.Addr {
+				k = 2
+			}
+			return PasswordAuthenticator{Username: hc[k].user, Password: hc[k].pass, AllowedAuthenticators: []string{hc[k].allowed}}, nil
+		}
+		s, serr := NewSession(*cfg)
+		nsess++
+		if serr == nil {
+			s.Query("INSERT INTO t (a) VALUES (1)").Exec()
+			vfWithin(5*time.Second, s.Close)
+		}
+		nodes[1].CloseAll()
+		nodes[2].CloseAll()
+		time.Sleep(5 * time.Millisecond)
+		mu.Lock()
+		for i := 1; i <= 2; i++ {
+			log.Emit(map[string]interface{}{"ev": "case", "id": id, "kind": "pw", "allowed": []string{hc[i].allowed}, "user": vfC20Ints([]byte(hc[i].user)),
+				"pass": vfC20Ints([]byte(hc[i].pass)), "via": "provider-per-host", "proto": proto})
+			for _, c := range order[i] {
+				log.Emit(map[string]interface{}{"ev": "conn", "id": id, "c": c})
+				for _, m := range events[i][c] {
+					m["id"] = id
+					if m["ev"] == "cli" && m["op"] == int(vfOpAuthResponse) {
+						nresp++
+					}
+					log.Emit(m)
+				}
+			}
+			errText := ""
+			if serr != nil {
+				errText = serr.Error()
+			}
+			log.Emit(map[string]interface{}{"ev": "result", "id": id, "session": serr == nil, "err": errText, "crash": false, "query": ""})
+			id++
+		}
+		mu.Unlock()
+	}
+	fmt.Printf("VFSUMMARY {\"sessions\":%d,\"auth_responses\":%d}\n", nsess, nresp)
+}
